@@ -1,6 +1,6 @@
 (* C19 driver.  argv[1] = metadata dump of the harness (h_sess --meta); argv[2] = file holding the
    __FILE__:__LINE__ text of the InvalidMessage thrown by Session::process (obtained from the real
-   code by the suite's probe run).
+   code by the suite's probe run); argv[3], argv[4]: see the end of the file.
    case: a history line; impl result: the harness' trace line.
    model result = run_line19 schema fl_process case; oracle = c19_ok on the parsed trace of either side. *)
 let nlist_of_string (s : string) : n list =
@@ -42,10 +42,74 @@ let read_file (path : string) : string =
   let s = really_input_string ic n in
   close_in ic; String.trim s
 
+(* ---- the Codec group's metadata dump (h_codec --meta) -> ctx: `load_ctx` of the CODEC COMMON BLOCK
+        (ocaml/c02_driver.ml), copied verbatim ------------------------------------------------------------- *)
+let bit v k = (v lsr k) land 1 = 1
+let mk_trait fnum ftype pos comp flags : trait =
+  { t_fnum = n_of_int fnum; t_ftype = n_of_int ftype; t_pos = n_of_int pos; t_comp = n_of_int comp;
+    t_mand = bit flags 0; t_present = bit flags 1; t_haspos = bit flags 2; t_group = bit flags 3;
+    t_iscomp = bit flags 4; t_suppress = bit flags 5; t_auto = bit flags 6 }
+
+let load_ctx (path : string) (render : n -> n list -> n list) : ctx =
+  let ic = open_in path in
+  let fields = ref [] and msgs = ref [] and begin_s = ref [] in
+  let traits : (string, trait list) Hashtbl.t = Hashtbl.create 64 in
+  let groups : (string, (int * string * bool) list) Hashtbl.t = Hashtbl.create 64 in
+  let inits : (string, (n * (n * n list)) list) Hashtbl.t = Hashtbl.create 4 in
+  let add tbl k v = Hashtbl.replace tbl k ((try Hashtbl.find tbl k with Not_found -> []) @ [v]) in
+  (try
+    while true do
+      let line = input_line ic in
+      match words line with
+      | ["V"; _; bs; _] -> begin_s := nlist_of_hex bs
+      | ["F"; fnum; ftype; _] -> fields := (n_of_int (int_of_string fnum), n_of_int (int_of_string ftype)) :: !fields
+      | ["M"; mt; _; admin] -> msgs := (mt, admin = "1") :: !msgs
+      | ["T"; owner; fnum; ftype; pos; comp; flags] ->
+          add traits owner (mk_trait (int_of_string fnum) (int_of_string ftype) (int_of_string pos)
+                              (int_of_string comp) (int_of_string flags))
+      | ["G"; owner; fnum; "->"; sub; deep] -> add groups owner (int_of_string fnum, sub, deep = "1")
+      | ["I"; owner; pos; fnum; v] ->
+          add inits owner (n_of_int (int_of_string pos), (n_of_int (int_of_string fnum), nlist_of_hex v))
+      | _ -> ()
+    done
+  with End_of_file -> close_in ic);
+  let rec gm owner : gmeta =
+    let ts = (try Hashtbl.find traits owner with Not_found -> []) in
+    let gs = (try Hashtbl.find groups owner with Not_found -> []) in
+    let deep = List.for_all (fun (_, _, d) -> d) gs in
+    if not deep && List.exists (fun (_, _, d) -> d) gs then failwith ("mixed deep flags under " ^ owner);
+    GM (ts, List.map (fun (f, sub, _) -> (n_of_int f, gm sub)) gs, deep) in
+  let init owner = (try Hashtbl.find inits owner with Not_found -> []) in
+  { c_fields = List.rev !fields;
+    c_msgs = List.rev_map (fun (mt, admin) -> { md_type = nlist_of_string mt; md_admin = admin; md_meta = gm mt }) !msgs;
+    c_header = gm "header"; c_trailer = gm "trailer";
+    c_hdr_init = init "header"; c_trl_init = init "trailer";
+    c_begin = !begin_s; c_render = render }
+
+(* argv: 1 = h_sess --meta, 2 = fl_process file, 3 = h_codec --meta (utest), 4 = file with the FILE_LINE of the
+   "unknown message type" throw of Message::factory.  With C19_DECODER=simple the stand-in decoder
+   Sess.SimpleCodec is used instead of the Codec model (debugging aid). *)
 let () =
   let sc = load_schema Sys.argv.(1) in
   let fl = nlist_of_string (read_file Sys.argv.(2)) in
+  let simple = (try Sys.getenv "C19_DECODER" = "simple" with Not_found -> false) || Array.length Sys.argv < 5 in
+  let run =
+    if simple then (fun c -> run_line19 sc fl c)
+    else begin
+      let ctx = load_ctx Sys.argv.(3) render_default in
+      (* the FILE_LINE of the hlen = 0 throw: the tail of the factory_empty text *)
+      let fe = string_of_nlist sc.sc_factory_empty in
+      let key = " at: " in
+      let fl_hlen =
+        (try
+           let rec find i = if i + String.length key > String.length fe then raise Not_found
+                            else if String.sub fe i (String.length key) = key then i else find (i + 1) in
+           let i = find 0 in String.sub fe (i + String.length key) (String.length fe - i - String.length key)
+         with Not_found -> "") in
+      let fls = { fl_hlen = nlist_of_string fl_hlen; fl_type = nlist_of_string (read_file Sys.argv.(4)); fl_trailer = [] } in
+      (fun c -> run_line19c sc ctx fls fl c)
+    end in
   run_protocol (fun case impl ->
     let c = nlist_of_string case in
-    let m = run_line19 sc fl c in
+    let m = run c in
     (string_of_nlist m, c19_ok_line sc c (nlist_of_string impl), c19_ok_line sc c m))
